@@ -134,6 +134,8 @@ def flags_block(mo):
         out.append("marker-value")
     if f.deadline_tie:
         out.append("deadline-tie")
+    if f.handled_tie:
+        out.append("handled-failure-tie")
     if f.ambiguous_calls:
         out.append("ambiguous-call-index")
     return out
